@@ -183,6 +183,29 @@ def cem_cases(chk, rng, n):
             chk.disagree("cem_sample", {"case": case, "impl": impl.tolist(), "model": m})
 
 
+def planner_cases(chk, rng, n):
+    """the sampler PETS builds for its planner: every candidate action of every plan step inside the box of its own dimension"""
+    import jax
+    import jax.numpy as jnp
+    from rl_blox.algorithm.pets import _init_mpc_optimizer_cem
+    for i in range(n):
+        d, H = int(rng.choice([1, 2, 3])), int(rng.choice([1, 2, 4]))
+        kind, low, high = draw_bounds(rng, d)
+        sample, _ = _init_mpc_optimizer_cem(box(low, high), H, 16)
+        frac_ = rng.random((H, d))
+        mean = (low + frac_ * (high.astype(np.float64) - low)).astype(np.float32)
+        var = (rng.choice([1e-2, 1.0, 1e3]) * np.ones((H, d)) * (high - low) ** 2).astype(np.float32)
+        c = np.asarray(sample(jnp.asarray(mean), jnp.asarray(var), jax.random.key(i)), dtype=np.float64)
+        tol = ulp_tol(low, high)
+        case = {"bounds": kind, "low": low.tolist(), "high": high.tolist(), "plan_horizon": H, "mean": mean.tolist()}
+        chk.case(("planner", i, kind, d, H))
+        chk.count("planner_cases")
+        if c.shape != (16, H, d) or not (np.all(c >= low - tol) and np.all(c <= high + tol)):
+            chk.fail("C10:pets._init_mpc_optimizer_cem:bounds", "a planner candidate action lies outside the bounds of its action dimension",
+                     {"case": case, "shape": list(c.shape), "min_per_dim": c.reshape(-1, d).min(axis=0).tolist() if c.ndim == 3 else None,
+                      "max_per_dim": c.reshape(-1, d).max(axis=0).tolist() if c.ndim == 3 else None})
+
+
 ROUTINES = ["ddpg", "td3", "td3_lap", "td7", "mrq", "pets"]
 
 
@@ -191,7 +214,7 @@ def training_runs(chk, rng, per):
     import rl_blox.algorithm.td3 as td3m
     for name in ROUTINES:
         for _ in range(per):
-            d = int(rng.choice([1, 2]))
+            d = int(rng.choice([1, 2])) if name != "pets" else 2        # the planner's bounds are laid out per plan step and dimension
             kind, low, high = draw_bounds(rng, d)
             noise = float(rng.choice([0.1, 1.0, 5.0]))
             tnoise, clipc = float(rng.choice([0.2, 3.0])), float(rng.choice([0.1, 0.5]))
@@ -256,6 +279,7 @@ def main(chk):
     sampler_cases(chk, rng, 60 if q else 1500)
     tanh_cases(chk, rng, 40 if q else 800)
     cem_cases(chk, rng, 40 if q else 800)
+    planner_cases(chk, rng, 24 if q else 400)
     training_runs(chk, rng, 2 if q else 20)
     chk.sample({"note": "bounds kinds: symmetric, asymmetric, tiny range, large range, per-dimension mixed, tiny range far from 0; policy actions inside / on / "
                         "outside the box; exploration noise 0..7.5 so that the clip is active; network outputs up to 1e30 and +-inf"})
@@ -263,7 +287,8 @@ def main(chk):
         rule="make_sample_actions / make_sample_target_actions outputs within [low, high] exactly, equal to the extracted Coq sample_action / "
              "sample_target_action on the key's recomputed N(0,1) variates, pre-clip form policy action + noise*half range*z, smoothing noise <= "
              "noise_clip*half range; DeterministicTanhPolicy outputs for |y| up to 1e30 and +-inf within the bounds up to 4 float32 ulp of the bound; "
-             "cem_sample candidates inside [lb, ub] (<= 4 ulp) and equal to the Coq cem_candidate on recomputed truncated-normal variates; every action "
+             "cem_sample candidates inside [lb, ub] (<= 4 ulp) and equal to the Coq cem_candidate on recomputed truncated-normal variates; the sampler "
+             "PETS builds for its planner (plan horizons 1-4, 1-3 action dimensions with different bounds) keeps every plan step inside its dimension's box; every action "
              "received by the recording environment in ddpg / td3 / td3_lap / td7 / mrq / pets runs with random bounds inside the box; every smoothed "
              "target action computed during those runs inside the box and within the noise clip",
         assumptions=["jax.random.normal / truncated_normal are recomputed from the same key (their distribution is not checked here)",
